@@ -274,6 +274,20 @@ func buildC04(tier string) *core.Plan {
 				map[string]any{"a": map[string]any{"b": map[string]any{"c": n, "d": m}, "e": "x"}}},
 			tmpl{"toml-tables", "toml", fmt.Sprintf("top = %s\n[a]\nx = %s\n[a.b]\ny = 1\n[[l]]\nk = %s\n[[l]]\nk = %s\n", ns, ms, ns, ms),
 				map[string]any{"top": n, "a": map[string]any{"x": m, "b": map[string]any{"y": 1}}, "l": []any{map[string]any{"k": n}, map[string]any{"k": m}}}},
+			tmpl{"yaml-crlf-line-ends", "yaml", fmt.Sprintf("a: %s\r\nb: x\r\nl:\r\n  - 1\r\n  - y\r\n", ns),
+				map[string]any{"a": n, "b": "x", "l": []any{1, "y"}}},
+			tmpl{"yaml-no-trailing-newline", "yaml", fmt.Sprintf("a: %s\nb: {c: %s}", ns, ms),
+				map[string]any{"a": n, "b": map[string]any{"c": m}}},
+			tmpl{"yaml-bom", "yaml", fmt.Sprintf("\ufeffa: %s\nb: x\n", ns),
+				map[string]any{"a": n, "b": "x"}},
+			tmpl{"yaml-explicit-tags-and-complex-key", "yaml", fmt.Sprintf("a: !!str %s\nb: !!int \"7\"\nc: !!float 2\n? |\n  k\n: v\n", ns),
+				map[string]any{"a": emit.Num(n), "b": 7, "c": 2.0, "k\n": "v"}},
+			tmpl{"json-escapes", "json", fmt.Sprintf("{\"n\": %s, \"s\": \"\\ud83d\\ude00 a\\/b \\u00e9 \\t\", \"k\\u0041\": 1}", ns),
+				map[string]any{"n": n, "s": "😀 a/b é \t", "kA": 1}},
+			tmpl{"json-no-trailing-newline-crlf", "json", fmt.Sprintf("{\r\n  \"a\": %s,\r\n  \"l\": [ %s ]\r\n}", ns, ms),
+				map[string]any{"a": n, "l": []any{m}}},
+			tmpl{"toml-no-trailing-newline-crlf", "toml", fmt.Sprintf("a = %s\r\n[t]\r\nk = %s", ns, ms),
+				map[string]any{"a": n, "t": map[string]any{"k": m}}},
 			tmpl{"toml-literal-strings", "toml", fmt.Sprintf("n = %s\ns = 'C:\\path'\nm = \"\"\"\nl1\nl2\"\"\"\n", ns),
 				map[string]any{"n": n, "s": "C:\\path", "m": "l1\nl2"}},
 		)
